@@ -8,7 +8,7 @@ def run(rep, tier, seed):
     rep.rule = ("programs: single if over 27 condition values of every Go kind x else/no else; else-if chains of 3 with all truth "
                 "assignments (with and without if-let); range over 11 subject kinds x lengths 0..2 (quick) / 0..3 (thorough) x "
                 "zero/one/two-variable forms x {:=, =} x '_' in either slot x else/no else; nested ranges over every pair of "
-                "index-providing kinds; loop variables captured into outer variables; conditions that are operator trees (JetExpr, <=2 operators) in if and else-if; all non-trivial; distinct by program. Maps with >1 entry are compared as multisets")
+                "index-providing kinds; loop variables captured into outer variables; conditions that are operator trees (JetExpr, <=2 operators) in if and else-if; all non-trivial; distinct by program. Maps with >1 entry are compared as multisets. History probe: on one Set a range over 3 elements that is exhausted / left by return (first, second iteration, nested) / by a runtime error / by a panic (caught by try or not), followed by a range over 1,0,2,3,1,0 elements of the same kind or a map (map, slice, array, int, chan, Ranger, string), compared with a Set without that history")
     gen_and_replay(rep, wd, exe, "Gen_C05.tla", "C05", {"MaxLen": 2 if tier == "quick" else 3}, {})
     # what a range binds is that iteration's value: copied out of the loop it stays what it was (loop-variable capture
     # for 8 ranger kinds x 3 forms x {:=, =}, two-entry maps in both orders - the families of Gen_C07)
